@@ -1692,6 +1692,51 @@ def f_stale_loop_shuts_new_link():
         f"status log {log}; links opened {n}; the new link was shut: {second_shut}; state {state}"
 
 
+@finding("C01/excess-k/65013.realPower", "C01")
+def f_excess_k():
+    """the 22 J1939 AC power fields (32 bits, Offset -2000000000, range -2e9..2294967292, marked Signed because the VALUES can be negative): the
+    raw count was sign-extended before the offset was added, so the upper half of the database range was refused, 147483647 W read as
+    'not available' and the all-ones 'not available' payload raised"""
+    from nmea2000.encoder import NMEA2000Encoder
+    out = {}
+    for lab, raw in (("0x80000000", 0x80000000), ("0x7fffffff", 0x7FFFFFFF), ("0xfffffffc", 0xFFFFFFFC), ("all-ones", 0xFFFFFFFF), ("zero", 0)):
+        data = raw.to_bytes(4, "little") + (0xFFFFFFFF).to_bytes(4, "little")
+        try:
+            m = _dec().decode_basic_string(_basic(65013, data), True)
+            out[lab] = m.fields[0].value
+        except Exception as e:
+            out[lab] = f"{type(e).__name__}"
+    exp = {"0x80000000": 147483648, "0x7fffffff": 147483647, "0xfffffffc": 2294967292, "all-ones": None, "zero": -2000000000}
+    # … and back: a value in the upper half encodes to its unsigned raw count
+    m = _dec().decode_basic_string(_basic(65013, (5).to_bytes(4, "little") + (0xFFFFFFFF).to_bytes(4, "little")), True)
+    m.fields[0].value = 2000000000
+    try:
+        back = NMEA2000Encoder()._call_encode_function(m)[:4].hex()
+    except Exception as e:
+        back = type(e).__name__
+    return out == exp and back == (4000000000).to_bytes(4, "little").hex(), f"decoded {out} (expected {exp}); 2000000000 W encodes to {back}"
+
+
+@finding("C09/wraps-silently/DATE-by-value", "C09")
+def f_date_by_value():
+    """a DATE given by value outside 1970-01-01..2149-06-05 was turned into a day count that the generated code then masked: date(2200,1,1) was
+    sent as 2020-07-27"""
+    import datetime
+    from nmea2000.encoder import NMEA2000Encoder
+    bad = []
+    for d in (datetime.date(2200, 1, 1), datetime.date(1969, 12, 31), datetime.date(2149, 6, 6), datetime.date(1800, 1, 1)):
+        m = _dec().decode_basic_string(_basic(126992, bytes([1, 0xF0]) + (19000).to_bytes(2, "little") + (36000000).to_bytes(4, "little")), True)
+        f = m.get_field_by_id("date")
+        f.value, f.raw_value = d, None
+        try:
+            p = NMEA2000Encoder()._call_encode_function(m)
+        except ValueError:
+            continue
+        r = _dec().decode_basic_string(_basic(126992, p), True)
+        bad.append(f"{d} accepted, decodes as {r.get_field_by_id('date').value}")
+    return not bad, "; ".join(bad) or "dates outside the field are refused"
+
+
 def run(keys=None):
     out = {}
     for k, (prop, fn) in FINDINGS.items():
